@@ -228,6 +228,16 @@ def r5_recursion(chk):
     chk.ob('C14.R5', 'FileReader.getSubdirs/recursion', ok, where(ci.mod, fn), '')
     ok = common.pfind(fn.body, '$d = [%s]' % fn.args.args[1].arg) is not None
     chk.ob('C14.R5', 'FileReader.getSubdirs/own-dir-first', ok, where(ci.mod, fn), '')
+    # the sub-directory path is join(<this directory>, <entry>) in that order
+    loops_ = [n for n in walk_no_nested(fn) if isinstance(n, ast.For)]
+    joins = [c for l_ in loops_ for c in ast.walk(l_) if isinstance(c, ast.Call) and dotted_name(c.func) == 'os.path.join']
+    pth = fn.args.args[1].arg
+    ok = len(loops_) == 1 and len(joins) == 1 and len(joins[0].args) == 2 and \
+        pth in [n.id for n in ast.walk(joins[0].args[0]) if isinstance(n, ast.Name)] and \
+        norm(loops_[0].target) in [n.id for n in ast.walk(joins[0].args[1]) if isinstance(n, ast.Name)] and \
+        rec and norm(rec[0].args[0]) == norm(common.stmt_of(joins[0]).targets[0])
+    chk.ob('C14.R5', 'FileReader.getSubdirs/child-path', bool(ok), where(ci.mod, fn),
+           'a sub-directory is os.path.join(<parent>, <listdir entry>) and that path is what is tested and recursed into')
     zi = model.cls(ZIP, 'ZipReader')
     o, rz = zi.find_method('_readZipDirectory')
     rec = [c for c in walk_no_nested(rz) if isinstance(c, ast.Call) and norm(c.func) == 'self._readZipDirectory']
@@ -328,6 +338,60 @@ def _r6_body(chk, model, fn, mod, loops, norm):
         "readers.append(FileReader(filePath).setOptions(**options))" in ftxt and \
         "readers.append(ZipReader(filePath).setOptions(**options))" in ftxt and "if scheme == 'file':" in ftxt
     chk.ob('C14.R6', 'file/zip-branch', ok, where(mod, chain[0]), '')
+    # which reader a local source gets: the branch is a little program over `scheme`; it is interpreted for every
+    # (scheme, path-ends-in-.zip) combination and compared with the table the documentation implies
+    def run(stmts, env, zipped, out):
+        for st in stmts:
+            if isinstance(st, ast.Assign) and len(st.targets) == 1 and isinstance(st.targets[0], ast.Name):
+                v = st.value
+                if isinstance(v, ast.Constant):
+                    env[st.targets[0].id] = v.value
+                elif norm(v) == 'mibSource.scheme':
+                    env[st.targets[0].id] = env['__scheme__']
+                else:
+                    env[st.targets[0].id] = ('expr', norm(v))
+            elif isinstance(st, ast.If):
+                t = ev(st.test, env, zipped)
+                if t is None:
+                    out.append('?')
+                    return
+                run(st.body if t else st.orelse, env, zipped, out)
+            elif isinstance(st, ast.Expr):
+                for c in ast.walk(st):
+                    if isinstance(c, ast.Call) and dotted_name(c.func) in ('FileReader', 'ZipReader'):
+                        out.append(dotted_name(c.func))
+
+    def ev(e, env, zipped):
+        if isinstance(e, ast.BoolOp):
+            vs = [ev(x, env, zipped) for x in e.values]
+            if None in vs:
+                return None
+            return all(vs) if isinstance(e.op, ast.And) else any(vs)
+        if isinstance(e, ast.UnaryOp) and isinstance(e.op, ast.Not):
+            v = ev(e.operand, env, zipped)
+            return None if v is None else not v
+        if isinstance(e, ast.Compare) and len(e.ops) == 1 and isinstance(e.left, ast.Name) and \
+                isinstance(e.comparators[0], ast.Constant) and e.left.id in env and not isinstance(env[e.left.id], tuple):
+            if isinstance(e.ops[0], ast.Eq):
+                return env[e.left.id] == e.comparators[0].value
+            if isinstance(e.ops[0], ast.NotEq):
+                return env[e.left.id] != e.comparators[0].value
+        if isinstance(e, ast.Call) and isinstance(e.func, ast.Attribute) and e.func.attr == 'endswith' and e.args and \
+                isinstance(e.args[0], ast.Constant) and e.args[0].value in ('.zip', '.ZIP'):
+            return zipped == e.args[0].value
+        return None
+    want = {('', None): 'FileReader', ('', '.zip'): 'ZipReader', ('', '.ZIP'): 'ZipReader',
+            ('file', None): 'FileReader', ('file', '.zip'): 'FileReader', ('file', '.ZIP'): 'FileReader',
+            ('zip', '.zip'): 'ZipReader', ('zip', '.ZIP'): 'ZipReader', ('zip', None): 'FileReader'}
+    got = {}
+    for (sch, z), w in sorted(want.items(), key=str):
+        out = []
+        run(branches[0][1], {'__scheme__': sch}, z, out)
+        got[(sch, z)] = out
+    bad = dict((k, v) for k, v in got.items() if v != [want[k]])
+    chk.ob('C14.R6', 'file/zip-decision-table', not bad, where(mod, chain[0]),
+           'reader chosen per (scheme, suffix): %s; expected %s' % (
+               sorted((k, v) for k, v in bad.items()), sorted((k, want[k]) for k in bad)))
     calls = dict((dotted_name(c.func), c) for b in branches[1:3] for s in b[1] for c in ast.walk(s)
                  if isinstance(c, ast.Call) and dotted_name(c.func) in ('HttpReader', 'FtpReader'))
     h = calls.get('HttpReader')
@@ -514,6 +578,32 @@ def r10_guard_polarity(chk):
     err = [x for x in walk_no_nested(gs) if isinstance(x, ast.Raise) and x.exc is not None]
     common.requires(chk, 'C14.R10', 'FileReader.getSubdirs/access-error', cfg2, mod, [cfg2.node_of(x) for x in err],
                     {p[3]: False})
+    # ZipReader: an archive that could not be opened is reported (unless errors are ignored) when a module is asked
+    # for; an empty member is skipped, a member filling the size limit is refused, anything else is returned
+    zi = model.cls(ZIP, 'ZipReader')
+    o, zg = zi.find_method('getData')
+    zcfg = CFG(zg)
+    pend = [x for x in walk_no_nested(zg) if isinstance(x, ast.Raise) and x.exc is not None and
+            norm(x.exc) == 'self._pendingError']
+    common.requires(chk, 'C14.R10', 'ZipReader.getData/pending-error-raised', zcfg, zi.mod, [zcfg.node_of(x) for x in pend],
+                    {'self._pendingError': True})
+    rets = [x for x in walk_no_nested(zg) if isinstance(x, ast.Return) and isinstance(x.value, ast.Tuple)]
+    b = common.pfind([s_ for s_ in walk_no_nested(zg) if isinstance(s_, ast.Assign)], '$d, $m = self._readZipFile($r)')
+    if b and rets:
+        common.requires(chk, 'C14.R10', 'ZipReader.getData/returns-non-empty-member', zcfg, zi.mod,
+                        [zcfg.node_of(rets[0])], {b['d']: True, 'self._pendingError': False,
+                                                  'len(%s) == self.maxMibSize' % b['d']: False})
+        big = [x for x in walk_no_nested(zg) if isinstance(x, ast.Raise) and x.exc is not None and
+               norm(x.exc).startswith('IOError(')]
+        common.requires(chk, 'C14.R10', 'ZipReader.getData/too-large', zcfg, zi.mod, [zcfg.node_of(x) for x in big],
+                        {'len(%s) == self.maxMibSize' % b['d']: True})
+    o, zinit = zi.find_method('__init__')
+    icfg = CFG(zinit)
+    ip = [a.arg for a in zinit.args.args]
+    st_err = [s_ for s_ in walk_no_nested(zinit) if isinstance(s_, ast.Assign) and norm(s_.targets[0]) ==
+              'self._pendingError' and not (isinstance(s_.value, ast.Constant) and s_.value.value is None)]
+    common.requires(chk, 'C14.R10', 'ZipReader.__init__/open-error-kept', icfg, zi.mod, [icfg.node_of(x) for x in st_err],
+                    {ip[2]: False}, 'an unreadable archive must surface unless ignoreErrors')
     chk.floor('C14.R10', 12, 'guarded statements')
 
 
